@@ -73,7 +73,13 @@ P = {
          "Kani (CBMC, no unwinding involved: loop-free harnesses over fully symbolic u8/u16/u32/[u8;4]) proves the same for the compiled code including the parts Verus assumes: FourCC <-> u32 <-> bytes <-> BoxType over all 2^32 codes, "
          "language_code on all 26^3 lower-case triples and (thorough) language_string / language_code inverse on all 2^15 codes."),
    note=TRUST + " FourCC::from_str is checked by Kani for ASCII strings up to 6 bytes only (bounded, labelled so in the evidence); Display impls (format machinery) and the &str-keyed TrackType/MediaType conversions are outside both tools' reach (string matching) and are not claimed."),
- 'C17': dict(claim=False, reason='muxer totality contracts not built yet in this revision'),
+ 'C17': dict(claim=True, cat='proof', technique='Verus safety obligations (overflow, division, index, unwrap, panic!, byteorder range panics) on every muxer function under the writer invariant; error postconditions; field-level representability invariant (fw) carried from add_track to write_end',
+   text=("Every function reachable from Mp4Writer::{write_start, add_track, write_sample, write_end} (track writer steps, constructors of the sample entries and descriptors, box encoders of the moov tree, header helpers) is proved free of "
+         "arithmetic overflow, division by zero, out-of-range indexing, unwrap on None/Err and byteorder's range panics (u24/u48 fields) for all argument values, under the representation invariant that the preceding calls are proved to establish; "
+         "add_track is proved to return InvalidData exactly for the configurations outside track_config_ok (zero timescale, SPS shorter than 4 bytes, parameter sets over 64 KiB, object types the 5-bit field cannot carry) and to accept all others; "
+         "write_sample with an unknown track id is proved to return TrakNotFound leaving the writer unchanged; write_end is proved to hand MoovBox::write_box a tree whose every field fits its wire width (so the output satisfies C02/C04/C14), "
+         "for any history. Six panics / silent corruptions on this path were found and repaired (D-35..D-39, D-32)."),
+   note=TRUST + " Domain hypotheses (stated as preconditions, DESIGN D-20): fewer than 2^32-2 samples per track, sample length < 4 GiB, mdhd duration sum < 2^64, movie box <= 4 GiB (mw_moov_fits). catch_unwind-level observation (allocation failure, stack) is outside the model."),
  'C18': dict(claim=False, reason='metadata decoding contracts not built yet in this revision'),
 }
 
